@@ -26,6 +26,7 @@ func init() {
 	register(&Workload{Prop: "C14", Variant: "cut-enum", Horizon: 30 * time.Minute, MaxSteps: 1500000, MaxG: 8192, Spin: 40000, PCTLen: 8000, Weight: 6, Body: c14CutEnum})
 	register(&Workload{Prop: "C14", Variant: "refuse-restart", Horizon: 30 * time.Minute, MaxSteps: 1500000, MaxG: 8192, Spin: 40000, PCTLen: 8000, Weight: 3, Body: c14RefuseRestart})
 	register(&Workload{Prop: "C14", Variant: "bad-frames", Horizon: 30 * time.Minute, MaxSteps: 1500000, MaxG: 8192, Spin: 40000, PCTLen: 8000, Weight: 2, Body: c14BadFrames})
+	register(&Workload{Prop: "C14", Variant: "oversize", Horizon: 30 * time.Minute, MaxSteps: 3000000, MaxG: 8192, Spin: 40000, PCTLen: 8000, Weight: 1, Body: c14Oversize})
 	register(&Workload{Prop: "C14", Variant: "tell-latency", Horizon: 30 * time.Minute, MaxSteps: 1500000, MaxG: 8192, Spin: 40000, PCTLen: 8000, Weight: 1, Body: c14TellLatency})
 }
 
@@ -548,4 +549,75 @@ func c14TellLatency(r *R) {
 		return
 	}
 	_ = a.Stop()
+}
+
+// c14Oversize: a frame with an invalid length produced by the library itself - a real sender is told a message whose
+// encoding exceeds the 4 MiB frame limit, between ordinary messages on a healthy connection. The receiver cannot use such
+// a frame; whatever the library does with it, the ordinary messages before and after it must arrive exactly once, in
+// order and intact, nothing may be decoded from the oversized frame's body, and the oversized message itself is either
+// delivered intact or reported as a dead letter on the sending side (exactly once, not both, not silently dropped).
+func c14Oversize(r *R) {
+	nw := simnet.New()
+	nw.ChunkMode = []int{simnet.ChunkAll, simnet.ChunkUniform, simnet.ChunkFrame}[r.Choose(3)]
+	opt := c14Retry(r, r.Index)
+	a := StartRNode(r, nw, 1, c14AddrA, opt)
+	if r.Failed() {
+		return
+	}
+	b := StartRNode(r, nw, 2, c14AddrB, opt)
+	if r.Failed() {
+		return
+	}
+	b.Sink("sink")
+	vsimrt.Settle()
+	const limit = 4 * 1024 * 1024
+	n := 4 + r.Choose(6)
+	bigAt := 1 + r.Choose(n-2)
+	over := []int{-200, 1, 64, 4096, 1 << 20}[r.Choose(5)] // payload size relative to the limit: the envelope adds about 150 bytes
+	r.Sample(map[string]any{"messages": n, "oversized_at": bigAt, "payload_minus_limit": over})
+	var ref vivid.ActorRef
+	a.Do(func() { ref, _ = a.Sys.CreateRef(c14AddrB, "/sink") })
+	for k := 0; k < n; k++ {
+		size := 24
+		if k == bigAt {
+			size = limit + over
+		}
+		a.Do(func() { a.Sys.Tell(ref, newRMsg("m", int64(k), size, 0)) })
+	}
+	vsimrt.SettleFor(5 * time.Second)
+	if r.Failed() {
+		return
+	}
+	b.mu.Lock()
+	df := b.decodeFailed
+	b.mu.Unlock()
+	got, ok := c14CheckFlow(r, a, b, "m", n, "oversized-message")
+	if !ok {
+		return
+	}
+	a.mu.Lock()
+	dl := 0
+	for _, d := range a.deadLetters {
+		if d == fmt.Sprintf("m#%d", bigAt) {
+			dl++
+		}
+	}
+	a.mu.Unlock()
+	for k := 0; k < n; k++ {
+		if k != bigAt && !got[int64(k)] {
+			r.Fail("C14/oversized-message-stops-later-frames", "a message whose frame exceeds the 4 MiB limit (payload %d bytes) was told as #%d of %d on a healthy connection; ordinary message #%d never arrived (arrived: %v; receiver decode failures: %d; dead letters for the oversized message: %d)", limit+over, bigAt, n, k, keys64(got), df, dl)
+			return
+		}
+	}
+	if df > 0 {
+		r.Fail("C14/oversized-message-desynchronises-stream", "after the oversized message the receiver reported %d undecodable frame(s): it is parsing the rejected frame's body as frames", df)
+		return
+	}
+	if !got[int64(bigAt)] && dl == 0 {
+		r.Fail("C14/oversized-message-silently-dropped", "the oversized message #%d (payload %d bytes) was neither delivered nor reported as a dead letter on the sending side", bigAt, limit+over)
+		return
+	}
+	r.Count("oversized-message-checked")
+	_ = a.Stop()
+	_ = b.Stop()
 }
